@@ -5,6 +5,7 @@ import EduceModel.Spec.Cmp
 import EduceModel.Spec.Hash
 import EduceModel.Spec.Clone
 import EduceModel.Spec.Debug
+import EduceModel.Spec.Deref
 /-
   Line-protocol driver: one JSON array per line in, one JSON array per line out.
   The executable definitions it runs are exactly the ones the theorems are about
@@ -26,6 +27,8 @@ structure FieldJ where
   hash : HashField
   clone : CloneField
   debug : DbgField
+  deref : DerefField
+  derefMut : DerefField
   deriving Inhabited
 
 structure VariantJ where
@@ -87,6 +90,8 @@ def parseField (j : Json) : FieldJ :=
   let h := jfield j "hash"
   let c := jfield j "clone"
   let g := jfield j "debug"
+  let dr := jfield j "deref"
+  let dm := jfield j "derefmut"
   { name := name, ty := jstr (jfield j "ty"),
     eq := { name := name, ignore := jbool (jfield e "ignore"),
             method := (jopt (jfield e "method")).map jnat },
@@ -96,7 +101,9 @@ def parseField (j : Json) : FieldJ :=
     hash := { name := name, ignore := jbool (jfield h "ignore"), method := (jopt (jfield h "method")).map jnat },
     clone := { name := name, method := (jopt (jfield c "method")).map jnat },
     debug := { name := name, ignore := jbool (jfield g "ignore"), method := (jopt (jfield g "method")).map jnat,
-               rename := (jopt (jfield g "rename")).map fun r => (jstr r).toList } }
+               rename := (jopt (jfield g "rename")).map fun r => (jstr r).toList },
+    deref := { name := name, flag := jbool (jfield dr "flag"), isRef := jbool (jfield dr "isRef") },
+    derefMut := { name := name, flag := jbool (jfield dm "flag"), isRef := jbool (jfield dm "isRef") } }
 
 def parseDef (j : Json) : DefJ :=
   { isEnum := jstr (jfield j "kind") == "enum",
@@ -142,6 +149,12 @@ def DefJ.dbgType (d : DefJ) : DbgType :=
     { name := v.name, shape := v.shape, fields := v.fields.toList.map (·.debug), vname := v.vname, namedField := v.namedField }
   if d.isEnum then .enum d.name (d.variants.toList.map mk) d.tname
   else .struct { mk (d.variants[0]!) with name := d.name } d.tname
+
+def DefJ.derefType (d : DefJ) (mutable : Bool) : DerefType :=
+  let mk (v : VariantJ) : DerefVariant :=
+    { name := v.name, shape := v.shape, fields := v.fields.toList.map fun f => if mutable then f.derefMut else f.deref }
+  if d.isEnum then .enum (d.variants.toList.map mk)
+  else .struct (mk (d.variants[0]!))
 
 def DefJ.tyOf (d : DefJ) (p : Pos) : String :=
   match d.variants[p.variant]? with
@@ -305,6 +318,40 @@ def handle (st : St) (j : Json) : St × Option Json :=
       let e := (Spec.effectiveShape t x).map fun sh => sh.render ops alt
       let dv := (Spec.deriveShape t x).map fun sh => sh.render ops alt
       (st, some (Json.arr #["dbgd", a[1]!, a[2]!, a[3]!, a[4]!, Json.bool (e == dv), Json.bool true]))
+  else if op == "deref" || op == "derefmut" then
+    -- ["deref", def, va, [fa]] → index of the field the returned reference designates
+    match st.defs.get? (jnat a[1]!) with
+    | none => (st, some (Json.arr #["error", "unknown def"]))
+    | some d =>
+      let t := d.derefType (op == "derefmut")
+      let x : Val Nat := ⟨jnat a[2]!, natList a[3]!⟩
+      let m : Json := match Gen.Deref.body t with
+        | .error _ => Json.str "rejected"
+        | .ok bd => match Sem.evalDeref t bd x with
+          | some p => Json.num p.field
+          | none => Json.str "unbound"
+      let s : Json := match Spec.deref t x with
+        | some p => Json.num p.field
+        | none => Json.str "refused"
+      (st, some (Json.arr #[op, a[1]!, a[2]!, a[3]!, m, s]))
+  else if op == "write" then
+    -- ["write", def, va, [fa]] → indices of the fields changed by `*(&mut *x) = fresh`
+    match st.defs.get? (jnat a[1]!) with
+    | none => (st, some (Json.arr #["error", "unknown def"]))
+    | some d =>
+      let t := d.derefType true
+      let x : Val Nat := ⟨jnat a[2]!, natList a[3]!⟩
+      let changed (y : Val Nat) : Json :=
+        Json.arr ((List.range x.fields.length).filter (fun i => x.fields[i]? != y.fields[i]?) |>.toArray.map fun (i : Nat) => Json.num i)
+      let m : Json := match Gen.Deref.body t with
+        | .error _ => Json.str "rejected"
+        | .ok bd => match Sem.evalDeref t bd x with
+          | some p => changed (Sem.writeThrough x p 99)
+          | none => Json.str "unbound"
+      let s : Json := match Spec.deref t x with
+        | some p => changed (Sem.writeThrough x p 99)
+        | none => Json.str "refused"
+      (st, some (Json.arr #[op, a[1]!, a[2]!, a[3]!, m, s]))
   else if op == "hash" then
     -- ["hash", def, va, [fa]] → fed data as a list of strings
     match st.defs.get? (jnat a[1]!) with
